@@ -40,3 +40,61 @@ def pure_lookup_calls(prog, f, lookup_name):
     effect = A.ReachCache(prog, lambda c: ((c.trait or "").startswith("mdk_storage_traits::") and c.name.startswith(("save_", "replace_", "invalidate_", "mark_", "delete_", "create_", "rollback_", "release_")))
                           or (last_seg(c.self_adt) == "MlsGroup"))
     return [c for c in f.live_calls() if look.call(c) and not effect.call(c)]
+
+
+def _param_names(f):
+    names = {}
+    for name, pl in f.debug:
+        if len(pl) == 1 and 1 <= pl[0] <= f.nargs:
+            names[pl[0]] = name
+    return names
+
+
+def _arg_name(prog, f, a):
+    """the name under which the caller knows an argument: the last named field of the place, the single field it is a copy of, or
+    the debug name of the local"""
+    import analysis as A
+    if "p" not in a:
+        return None
+    flds = [e[1:] for e in a["p"][1:] if isinstance(e, str) and e.startswith(".") and not e[1:].isdigit()]
+    if flds:
+        return flds[-1]
+    pr = A.producers(prog, f, a["p"][0], scope=set(), max_frames=0)
+    if len(pr["fields"]) == 1 and not pr["calls"]:
+        return list(pr["fields"])[0]
+    for l in A.copy_sources(f, a["p"][0]):
+        if isinstance(l, int):
+            for name, pl in f.debug:
+                if pl == [l]:
+                    return name
+    return None
+
+
+def clause_swapped_args(prog, rep, rule, file_pred, floor):
+    """calls to workspace functions in the given files: two arguments of the same type whose names are each other's parameter names
+    (callee(mime_type, filename) called with (filename, mime_type)) are a swap.  Counted as examined: call sites where at least two
+    same-typed arguments are named exactly like their own parameters (the sites where a swap would be visible)."""
+    n = 0
+    for f in prog.nontest_fns(("mdk_core", "mdk_memory_storage", "mdk_sqlite_storage", "mdk_storage_traits", "mdk_uniffi")):
+        if not file_pred(f.file or ""):
+            continue
+        for c in f.live_calls():
+            ts = [t for t in prog.call_targets(c) if t.crate.startswith("mdk_") and not t.is_closure()]
+            if len(ts) != 1:
+                continue
+            t = ts[0]
+            pn = _param_names(t)
+            if len(pn) < 2:
+                continue
+            an = {i + 1: _arg_name(prog, f, a) for i, a in enumerate(c.args)}
+            if any(i < j and an[i] and an[j] and an[i] == pn.get(i) and an[j] == pn.get(j) and t.locals[i] == t.locals[j] for i in an for j in an):
+                n += 1
+            for i in an:
+                for j in an:
+                    if i < j and an[i] and an[j] and pn.get(i) and pn.get(j) and an[i] == pn[j] and an[j] == pn[i] and an[i] != an[j] and t.locals[i] == t.locals[j]:
+                        rep.violation(rule, "swapped-arguments/%s->%s/%s,%s" % (prog.fns.get(f.root, f).label(), t.label(), pn[i], pn[j]),
+                                      "%s passes `%s` as the `%s` parameter and `%s` as the `%s` parameter of %s (both %s): the two values are swapped"
+                                      % (f.label(), an[i], pn[i], an[j], pn[j], t.label(), t.locals[i]), c.loc())
+    rep.floor(rule, "call sites with two same-typed arguments named like their parameters", n, floor)
+    if n:
+        rep.ok(rule, "swapped-arguments", "%d call sites: every argument named like a parameter is passed in that parameter's position" % n)
